@@ -34,9 +34,24 @@ def _init(modname):
 
     C.use_repo()
     _MOD = importlib.import_module(modname)
+    if os.environ.get("VERIF_LINECOV", "1") == "1":
+        from . import linecov
+
+        linecov.start(C.REPO, C.anchor_files(getattr(_MOD, "PROP", "")))
 
 
 def _run_one(case):
+    r = _run_one_raw(case)
+    if os.environ.get("VERIF_LINECOV", "1") == "1" and isinstance(r, dict):
+        from . import linecov
+
+        d = linecov.delta()
+        if d:
+            r["_cov"] = d
+    return r
+
+
+def _run_one_raw(case):
     try:
         return _MOD.run_python(case)
     except Exception as e:  # harness bug, not a verdict
@@ -170,6 +185,10 @@ def main(mod, argv=None):
             model_error = f"{type(e).__name__}: {e}"
             proof_problems.append("model driver failed: " + model_error)
 
+    cov_seen = set()
+    for r in results:
+        for f, l in r.pop("_cov", []) or []:
+            cov_seen.add((f, l))
     stats = C.Stats()
     nontrivial = set()
     for c, r in zip(cases, results):
@@ -270,6 +289,7 @@ def main(mod, argv=None):
         },
         "generator_distribution": stats.dump(),
         "exhaustive": bool(getattr(mod, "EXHAUSTIVE", {}).get(tier, False)),
+        "anchored_line_coverage": _linecov_summary(prop, cov_seen),
         "anchored_sources_changed_since_integration": changed,
         "generator_tier_used": gen_tier,
         "proof_problems": proof_problems[:10],
@@ -281,6 +301,14 @@ def main(mod, argv=None):
           f"oracle_failures={len(oracle_fail)} known={len(known_hit)} theorems={discharged}/{obligations} "
           f"violations={violations} wall={time.time()-t0:.1f}s")
     return 1 if violations else 0
+
+
+def _linecov_summary(prop, seen):
+    if os.environ.get("VERIF_LINECOV", "1") != "1":
+        return {"enabled": False}
+    from . import linecov
+
+    return linecov.summarise(C.REPO, C.anchor_files(prop), seen)
 
 
 def _run_one_inproc(mod, case):
